@@ -20,7 +20,7 @@ class FnContract:
                  ensures_exc=(), modifies=(), loops=None, external=False, model=None, inline=False, result=None,
                  is_property=False, setter=False, note=None, lets=None, await_havoc=None, trusted_reason=None,
                  pure=False, emits=None, opaque_calls=(), findings=(), no_inv=False, defs=(), bounded=None, replay_seeds=None, call_ensures=None,
-                 call_modifies=None, ghosts=None):
+                 call_modifies=None, ghosts=None, inline_calls=False):
         self.cset = cset
         self.key = key
         self.file = file
@@ -50,6 +50,7 @@ class FnContract:
         # weaker summary used at call sites instead of ensures/modifies (sound: callers learn less)
         self.call_ensures = None if call_ensures is None else [_lab(c, "ensures", i) for i, c in enumerate(call_ensures)]
         self.call_modifies = call_modifies
+        self.inline_calls = inline_calls        # verified on its own AND executed (not summarised) at call sites
         self.ghosts = dict(ghosts or {})        # universally quantified specification variables (name -> shape)
         self.bounded = bounded          # text of the bound if this function is only checked up to a bound
         self.no_inv = no_inv            # helper that neither assumes nor re-establishes the class invariants
